@@ -53,6 +53,8 @@ def instances(tier, seed):
             out.append({'id': f'reassign:{P}x{C}:best={list(best)}', 'what': 'reassign', 'P': P, 'C': C, 'best': list(best)})
     for w in ([2, 8], [2, 4, 8]):
         out.append({'id': f'optimize:w={w}:C=2', 'what': 'optimize', 'w': w, 'C': 2, 'wseed': seed})
+    # 0 bit among the precisions: pruned channels stay pruned, the others are refined as usual
+    out.append({'id': 'optimize:w=[0, 2, 8]:C=3', 'what': 'optimize', 'w': [0, 2, 8], 'C': 3, 'wseed': seed})
     if tier == 'thorough':
         out.append({'id': 'optimize:w=[2, 8]:C=3', 'what': 'optimize', 'w': [2, 8], 'C': 3, 'wseed': seed})
     # layers wider than one NE16 tile (32 channels): the channel COUNTS per precision are z3 integers concretised by forking (every composition
@@ -77,11 +79,30 @@ def check_matrix(M, best):
     return None
 
 
+def check_promotion(M, best, cur):
+    """cur: current precision index per channel (arg-max of the scores).  When the targets are reachable from the current counts by
+    moving channels to HIGHER precisions only (which is all optimize_prec_assignment ever asks for), no channel may end up lower.
+    -> None or (observable, text, current counts)"""
+    P, C = M.shape
+    cc = [sum(1 for c in cur if c == p_) for p_ in range(P)]
+    if any(sum(best[p_:]) < sum(cc[p_:]) for p_ in range(P)):
+        return None          # the targets demand a demotion: nothing to say
+    new = [int(torch.argmax(M[:, c])) for c in range(C)]
+    low = [c for c in range(C) if new[c] < cur[c]]
+    if low:
+        return 'channel_demoted', f'counts {cc} -> targets {list(best)}: channel {low[0]} goes from precision #{cur[low[0]]} to #{new[low[0]]}: {M.tolist()}', cc
+    return None
+
+
 def concrete_reassign(P, C, best, scores):
     from plinio.methods.mps.utils import _reassign_precisions
     S = torch.tensor([float(Fraction(v)) for v in scores], dtype=torch.float32).reshape(P, C)
     M = _reassign_precisions(torch.tensor([float(b) for b in best]), S)
-    return M, check_matrix(M, best)
+    prob = check_matrix(M, best)
+    if prob is None:
+        pr = check_promotion(M, best, [int(v) for v in torch.argmax(S, dim=0)])
+        prob = pr[:2] if pr else None
+    return M, prob
 
 
 class _Net(nn.Module):
@@ -161,13 +182,15 @@ def _alphas_for_counts(m, counts, w):
     for n, q in mpslib.quantizers(m):
         if 'c0.w_mps_quantizer' in n:
             P, C = q.alpha.shape
-            A = torch.full((P, C), 0.0)
+            # pairwise distinct scores (the stated assumption): the selected precision of channel c scores 1 - c/10^4, the others distinct
+            # values below 0.01
+            A = [[Fraction(1 + ((c * 7 + pi * 3) % 89), 10000) for c in range(C)] for pi in range(P)]
             c = 0
             for pi, k in enumerate(counts):
                 for _ in range(k):
-                    A[pi, c] = 1.0 - 0.001 * (c % 7)
+                    A[pi][c] = Fraction(10000 - c, 10000)
                     c += 1
-            vals[n] = [str(Fraction(float(v)).limit_denominator(1000)) for v in A.reshape(-1)]
+            vals[n] = [str(v) for row in A for v in row]
     return vals
 
 
@@ -225,17 +248,23 @@ def _run_reassign(res, p, selftest):
                 ex.assume(el[i] >= -4, el[i] <= 4)
                 for j in range(i + 1, len(el)):
                     ex.assume(el[i] != el[j])
+            cur = [int(v) for v in torch.argmax(S, dim=0)]       # forks on the current assignment (the function's own arg-max then follows the path)
             M = _reassign_precisions(torch.tensor([float(b) for b in best]), S)
         Mr = st.core.demote(M) if isinstance(M, SymTensor) and not M.has_sym() else M
-        return S, Mr
+        return S, (Mr, cur)
     ex = Explorer(timeout_ms=Q)
     n = 0
-    for pc, (S, M) in ex.explore(fn):
+    for pc, (S, (M, cur)) in ex.explore(fn):
         n += 1
         if isinstance(M, SymTensor):
             res.errors.append('result matrix still symbolic')
             continue
         prob = check_matrix(M, best)
+        ksuffix = ''
+        if prob is None:
+            pr = check_promotion(M, best, cur)
+            if pr:
+                prob, ksuffix = pr[:2], f'|cur={"-".join(str(v) for v in pr[2])}->best={"-".join(str(v) for v in best)}'
         if selftest and n == 1:
             prob = ('row_sums!=best', 'seeded')
         res.oblige(prob is None)
@@ -255,7 +284,7 @@ def _run_reassign(res, p, selftest):
             if n <= 2:
                 res.sample({'P': P, 'C': C, 'best': best, 'scores': scores, 'assignment': M.tolist()})
             continue
-        key = f'fn:_reassign_precisions|obs:{prob[0]}|P={P},C={C}' + ('|selftest' if selftest else '')
+        key = f'fn:_reassign_precisions|obs:{prob[0]}|P={P},C={C}' + ksuffix + ('|selftest' if selftest else '')
         if any(v['key'] == key for v in res.violations):
             continue
         rec = {'what_kind': 'reassign', 'P': P, 'C': C, 'best': best, 'scores': scores, 'observable': prob[0], 'key': key,
@@ -306,7 +335,8 @@ def _run_optimize(res, p, selftest):
         if prob is None:
             res.validated += 1
             continue
-        key = f'fn:optimize_prec_assignment|obs:{prob[0]}|w={w},C={C}' + ('|selftest' if selftest else '')
+        bef = info.get('before', {}).get('c0') if isinstance(info, dict) else None
+        key = f'fn:optimize_prec_assignment|obs:{prob[0]}|w={"-".join(str(b) for b in w)},C={C}' + (f'|before={"-".join(str(b) for b in bef)}' if isinstance(bef, list) else '') + ('|selftest' if selftest else '')
         if any(v['key'] == key for v in res.violations):
             continue
         rec = {'what_kind': 'optimize', 'w': w, 'C': C, 'wseed': wseed, 'alphas': alphas, 'observable': prob[0], 'key': key, 'what': f'optimize_prec_assignment: {prob[1]} ({info})'[:500]}
